@@ -555,7 +555,7 @@ class FnAnatomy:
 CLAUSE_KW = ("extract", "ret", "requires", "ensures", "decreases", "loop", "before", "after", "head",
              "attr", "inherent", "end", "returns", "opens_invariants", "no_unwind", "sigattr", "tail",
              "closure", "hoist", "drop_nested", "param_mut", "as_trait", "implhdr", "strip_body_attr",
-             "cfg", "mirror", "r2", "r3", "variants")
+             "cfg", "mirror", "r2", "r3", "variants", "drop_derive")
 
 
 def parse_block(lines):
@@ -715,10 +715,12 @@ def splice_fn(text, clauses, log, where):
     return ed.apply(), obligations
 
 
-def transfer_mirror(rtext, mirror, log, where, variant="main"):
+def transfer_mirror(rtext, mirror, log, where, variant="main", is_fn=True):
     if variant.startswith("exit:"):
         names = variant[5:].split(",")
-        variant = "exit" if FnAnatomy(rtext).name in names else "main"
+        variant = "exit" if (is_fn and FnAnatomy(rtext).name in names) else "main"
+    if not is_fn:
+        variant = "main"
     """Transfer the annotations of an *annotated mirror* onto the real (post-rule) text.
 
     The mirror is the function as Verus should see it: the repository's tokens plus annotations,
@@ -769,7 +771,7 @@ def transfer_mirror(rtext, mirror, log, where, variant="main"):
             raise Lost("%s: mirror drift %s" % (where, drift[:6]))
         log.append({"rule": "mirror-drift", "before": "mirror (authoring-time) tokens differ from /repo", "after": drift[:12], "where": where})
     ed = Edits(rtext)
-    fa_r = FnAnatomy(rtext)
+    fa_r = FnAnatomy(rtext) if variant in ("reach", "exit") else None
     n_sig_code = None
     if variant in ("reach", "exit"):
         # vacuity guards (see driver): reach = `assert(false)` as first statement must FAIL;
@@ -846,7 +848,14 @@ def process_block(repo, clauses, log, items_log, cfgset, variant="main"):
             text = drop_nested_fns(text, r.split(), sublog)
         if k == "strip_body_attr":
             pass
-    text = rule_pass(text, sublog, cfgset)
+    extra_drop = tuple(x.strip() for k, r in clauses if k == "drop_derive" for x in r.split(","))
+    global DROP_DERIVES
+    saved = DROP_DERIVES
+    DROP_DERIVES = saved + extra_drop
+    try:
+        text = rule_pass(text, sublog, cfgset)
+    finally:
+        DROP_DERIVES = saved
     for k, r in clauses:
         if k == "r2":
             text = rule_r2(text, r.strip(), sublog)
@@ -859,7 +868,10 @@ def process_block(repo, clauses, log, items_log, cfgset, variant="main"):
             text = enum_projection(text, [x.strip() for x in r.split(",")], sublog)
     obl = {}
     mirror = [r for k, r in clauses if k == "mirror"]
-    if it.kind == "fn" and mirror:
+    if mirror and it.kind != "fn":
+        text, exact, nann = transfer_mirror(text, mirror[0], sublog, where, variant, is_fn=False)
+        obl = {"annotations": nann, "mirror_exact": exact}
+    elif it.kind == "fn" and mirror:
         text, exact, nann = transfer_mirror(text, mirror[0], sublog, where, variant)
         obl = {"annotations": nann, "mirror_exact": exact,
                "requires": len(re.findall(r"\brequires\b", mirror[0])), "ensures": len(re.findall(r"\bensures\b", mirror[0])),
@@ -881,7 +893,7 @@ def process_block(repo, clauses, log, items_log, cfgset, variant="main"):
         for k, r in clauses[1:]:
             if k == "attr":
                 text = r + "\n" + text
-            elif k in ("end", "inherent", "implhdr", "variants", "r2"):
+            elif k in ("end", "inherent", "implhdr", "variants", "r2", "mirror", "drop_derive"):
                 pass
             else:
                 raise Lost("%s: contract clauses on a non-fn item (%s)" % (where, k))
